@@ -588,6 +588,15 @@ def resolver_table(ctx, fname, cache={}):
                     break
                 for sname in syns:
                     out[sname] |= pvs
+    if out is not None and f is not None:
+        # a resolver that refuses multi-valued attributes (`if schema_a.multivalue { return Err }`) bounds the value sets to size 1
+        from .lib.pathcond import site_conditions, implied, collect_binds
+        sinks = site_conditions(f["body"], lambda n: n.get("e") == "call" and (n.get("ctor") or "").endswith("core::result::Result::Ok") and not n.get("exp"))
+        b = collect_binds(f["body"])
+        single = bool(sinks) and all(any((not pol) and lf[1] == "expr" and has_token(tokens(lf[2]), "field", "multivalue") for (pol, lf) in implied(c, b).values())
+                                     for (_, c) in sinks)
+        out = dict(out)
+        out["__single_valued_only__"] = single
     cache[key] = (out, f)
     return cache[key]
 
@@ -734,9 +743,12 @@ def run(ctx):
                     realis = None
                     if rname is not None:
                         realis, rf = resolver_table(ctx, rname)
-                        resolvers.add((rname, None if realis is None else tuple(sorted(realis))))
+                        resolvers.add((rname, None if realis is None else tuple(sorted(k for k in realis if not k.startswith("__")))))
+                    single_only = bool(realis) and realis.get("__single_valued_only__") is True
+                    if realis is not None:
+                        realis = {k: v for k, v in realis.items() if not k.startswith("__")}
                     reach = sorted(all_syntaxes) if realis is None else sorted(realis)
-                    todo = [(s, qdict(s, realis.get(s) if realis else None), 2 if multi_by_syntax.get(s) else 1, True) for s in reach]
+                    todo = [(s, qdict(s, realis.get(s) if realis else None), 2 if (multi_by_syntax.get(s) and not single_only) else 1, True) for s in reach]
                     todo += [(s, qdict(s), 2 if multi_by_syntax.get(s) else 1, False) for s in sorted(ordered) if s not in reach]
                 else:
                     todo = [(None, qdict(None), 2, True)]
